@@ -63,8 +63,29 @@ func Describe(v any) string {
 	return fmt.Sprintf("%T:%v", v, v)
 }
 
+func copyAny(v any) any {
+	switch x := v.(type) {
+	case []any:
+		if x == nil {
+			return []any(nil)
+		}
+		out := make([]any, len(x))
+		for i, e := range x {
+			out[i] = copyAny(e)
+		}
+		return out
+	case map[string]any:
+		out := make(map[string]any, len(x))
+		for k, e := range x {
+			out[k] = copyAny(e)
+		}
+		return out
+	}
+	return v
+}
+
 // NumFns is the size of the function catalogue per receiver type.
-const NumFns = 4
+const NumFns = 6
 
 // ArrResult is what array function #1 returns: a nested value exercising the
 // native -> object conversion of results.
@@ -101,8 +122,19 @@ func Catalogue(recv string, id int, r any, args []any) any {
 			return ArrResult()
 		case 2:
 			return append([]any{Describe([]any(a))}, args...)
+		case 3:
+			return []any(nil)
+		case 4:
+			// mutates the slice it was given and returns that same slice
+			for i, j := 0, len(a)-1; i < j; i, j = i+1, j-1 {
+				a[i], a[j] = a[j], a[i]
+			}
+			return a
 		}
-		return []any(nil)
+		for i := range a {
+			a[i] = "M"
+		}
+		return a
 	case "int":
 		i := r.(int)
 		switch id % NumFns {
@@ -148,7 +180,8 @@ func (w *World) register(op Op) error {
 		if rec.Off {
 			return
 		}
-		rec.Calls = append(rec.Calls, Call{id, recv, args})
+		// snapshot: a function may mutate what it was given
+		rec.Calls = append(rec.Calls, Call{id, copyAny(recv), copyAny([]any(args)).([]any)})
 	}
 	switch op.Recv {
 	case "str":
